@@ -72,6 +72,9 @@ structure Roadmap (S D : Type) where
   nn : List Nat := []
   compCount : Nat := 0
   sizes : List (Nat × Nat) := []
+  /-- set by the model's own self-checks on the component bookkeeping (`checkSame`, `checkNone`); never set on any
+  lock-step run; `lazyprm_components_sound` is stated for runs on which it stays false -/
+  stale : Bool := false
 
 variable {S D : Type}
 
@@ -118,13 +121,23 @@ def markComponent (r : Roadmap S D) (v newC : Nat) : Roadmap S D :=
   let res := markLoop r.edges newC (2 * r.edges.length + 2) [v] r.comp r.sizes
   { r with comp := res.1, sizes := res.2 }
 
+/-- self-check after a relabelling: every edge joins two vertices with the same component id (i.e. the fuel-bounded
+breadth-first traversal of `markLoop` was complete).  Not part of the C++; it only ever sets `stale`. -/
+def checkSame (r : Roadmap S D) : Roadmap S D :=
+  { r with stale := r.stale || !(r.edges.all (fun e => compOf r e.u == compOf r e.v)) }
+
+/-- self-check after the relabelling that follows a vertex removal: no vertex still in the graph carries the old id -/
+def checkNone (r : Roadmap S D) (c0 : Nat) : Roadmap S D :=
+  { r with stale := r.stale ||
+      (List.range r.alive.size).any (fun v => r.alive[v]?.getD false && compOf r v == c0) }
+
 /-- `uniteComponents(a, b)` -/
 def uniteComponents (r : Roadmap S D) (a b : Nat) : Roadmap S D :=
   let ca := compOf r a
   let cb := compOf r b
   if ca == cb then r
-  else if sizeGet r.sizes ca > sizeGet r.sizes cb then markComponent r b ca
-  else markComponent r a cb
+  else if sizeGet r.sizes ca > sizeGet r.sizes cb then checkSame (markComponent r b ca)
+  else checkSame (markComponent r a cb)
 
 /-! ### connection strategy -/
 
@@ -151,14 +164,15 @@ def neighbours (cfg : Cfg S D) (r : Roadmap S D) (s : S) : List Nat :=
   -- while (newCount > 0 && dist(result[newCount-1], m) > bound_) --newCount
   ((sel.reverse.dropWhile (fun x => cfg.lt cfg.bound x.2)).reverse).map (·.1)
 
+/-- `boost::add_edge(m, n, weight)` with an UNKNOWN flag -/
+def addEdge (r : Roadmap S D) (m n : Nat) (w : D) : Roadmap S D := { r with edges := r.edges ++ [⟨m, n, w, false⟩] }
+
 /-- `addMilestone(state)`: returns the roadmap and the new vertex -/
 def connectAll (cfg : Cfg S D) (m : Nat) (s : S) : List Nat → Roadmap S D → Roadmap S D
   | [], r => r
   | n :: rest, r =>
     if cfg.filter m n then
-      let sn := r.states[n]?.getD s
-      let r1 := { r with edges := r.edges ++ [⟨m, n, cfg.cost s sn, false⟩] }
-      connectAll cfg m s rest (uniteComponents r1 m n)
+      connectAll cfg m s rest (uniteComponents (addEdge r m n (cfg.cost s (r.states[n]?.getD s))) m n)
     else connectAll cfg m s rest r
 
 /-- `boost::add_vertex` with the property writes of `addMilestone`: UNKNOWN flag, a fresh component of size 1 -/
@@ -203,7 +217,7 @@ def freshComp (r : Roadmap S D) : Roadmap S D :=
 def relabelNeighbours (comp0 : Nat) : List Nat → Roadmap S D → Roadmap S D
   | [], r => r
   | n :: rest, r =>
-    if compOf r n == comp0 then relabelNeighbours comp0 rest (markComponent (freshComp r) n r.compCount)
+    if compOf r n == comp0 then relabelNeighbours comp0 rest (checkSame (markComponent (freshComp r) n r.compCount))
     else relabelNeighbours comp0 rest r
 
 def insertSorted (x : Nat) : List Nat → List Nat
@@ -223,7 +237,7 @@ def formerNeighbours (r : Roadmap S D) (rm : List Nat) : List Nat :=
 /-- removal of the invalid vertices with their edges, then fresh component ids for the former neighbours
 that still carry the start's component id -/
 def removeVertices (r : Roadmap S D) (start : Nat) (rm : List Nat) : Roadmap S D :=
-  relabelNeighbours (compOf r start) (formerNeighbours r rm) (killVertices r rm)
+  checkNone (relabelNeighbours (compOf r start) (formerNeighbours r rm) (killVertices r rm)) (compOf r start)
 
 def setEdgeFlag (edges : List (Edge D)) (a b : Nat) : List (Edge D) :=
   edges.map (fun e => if e.joins a b then { e with flag := true } else e)
@@ -249,7 +263,7 @@ def checkEdges (cfg : Cfg S D) : List (Nat × Nat) → Roadmap S D → Roadmap S
     if ok then checkEdges cfg rest (flagEdge r pos prevV)
     else
       let r1 := dropEdge r pos prevV
-      (markComponent (freshComp r1) pos r1.compCount, false)
+      (checkSame (markComponent (freshComp r1) pos r1.compCount), false)
 
 def pairsOf : List Nat → List (Nat × Nat)
   | a :: b :: rest => (a, b) :: pairsOf (b :: rest)
